@@ -1,11 +1,844 @@
-// Package c16 - correspondence harness for C16 (stub: not built yet).
+// Package c16 drives the real plugin.CLIManager (Get, Uninstall, Install, List over
+// dir.NewSysFS) and, end to end, verifier.Verify with a real CLIManager, on worlds built
+// in a private case directory: a plugin root at some depth, a victim area outside the
+// root, and - for every hostile name - sentinel directories / executables planted exactly
+// where an unguarded join of the name into the root would land. Every executable of a
+// world is a shell script that appends its own path to a marker file when it runs, and the
+// whole case directory is snapshotted (path, kind, content) before and after the call.
 package c16
 
 import (
+	"context"
+	"crypto/sha256"
+	"crypto/x509"
+	"encoding/json"
 	"errors"
+	"fmt"
+	"io/fs"
+	"os"
+	"path"
+	"path/filepath"
+	"runtime"
+	"sort"
+	"strings"
+	"sync"
+	"sync/atomic"
+	"time"
+	"unicode/utf8"
 
+	"github.com/notaryproject/notation-core-go/signature"
+	"github.com/notaryproject/notation-go"
+	"github.com/notaryproject/notation-go/dir"
+	"github.com/notaryproject/notation-go/plugin"
+	"github.com/notaryproject/notation-go/verifier"
+	"github.com/notaryproject/notation-go/verifier/trustpolicy"
+	"github.com/notaryproject/notation-go/verifier/truststore"
 	"github.com/notaryproject/notation-go/xverif/common"
+	pluginframework "github.com/notaryproject/notation-plugin-framework-go/plugin"
+	"github.com/opencontainers/go-digest"
+	ocispec "github.com/opencontainers/image-spec/specs-go/v1"
 )
 
+// ---- JSON shapes of Lean's Input / Obs ------------------------------------------------
+
+type Node struct {
+	Path string `json:"path"`
+	Kind string `json:"kind"` // dir | exec | file | symdir | symfile
+	Ver  int    `json:"ver"`
+}
+
+type Input struct {
+	Op        string `json:"op"` // get | uninstall | install | verify | list
+	Root      string `json:"root"`
+	Name      string `json:"name"`
+	Src       string `json:"src"`
+	Overwrite bool   `json:"overwrite"`
+	Trusted   bool   `json:"trusted"`
+	FS        []Node `json:"fs"`
+}
+
+type Obs struct {
+	Err      bool     `json:"err"`
+	Executed []string `json:"executed"`
+	Changed  []string `json:"changed"`
+	Listed   []string `json:"listed"`
+}
+
+// ---- abstract worlds -------------------------------------------------------------------
+
+type world struct {
+	nodes map[string]Node
+}
+
+func newWorld() *world { return &world{nodes: map[string]Node{}} }
+
+// dirAll adds p and its missing ancestors as directories; false if a non-directory is in the way.
+func (w *world) dirAll(p string) bool {
+	p = path.Clean(p)
+	if p == "/" {
+		return true
+	}
+	if n, ok := w.nodes[p]; ok {
+		return n.Kind == "dir"
+	}
+	if !w.dirAll(path.Dir(p)) {
+		return false
+	}
+	w.nodes[p] = Node{Path: p, Kind: "dir"}
+	return true
+}
+
+// put adds a node (with its ancestors) unless something is already there or in the way.
+func (w *world) put(p, kind string, ver int) bool {
+	p = path.Clean(p)
+	if p == "/" {
+		return false
+	}
+	if _, ok := w.nodes[p]; ok {
+		return false
+	}
+	if !w.dirAll(path.Dir(p)) {
+		return false
+	}
+	if kind == "dir" {
+		ver = 0
+	}
+	w.nodes[p] = Node{Path: p, Kind: kind, Ver: ver}
+	return true
+}
+
+func (w *world) list() []Node {
+	out := make([]Node, 0, len(w.nodes))
+	for _, n := range w.nodes {
+		out = append(out, n)
+	}
+	sort.Slice(out, func(i, j int) bool { return out[i].Path < out[j].Path })
+	return out
+}
+
+// fsLegal: the name can be used as a single file name on this file system.
+func fsLegal(name string) bool {
+	return name != "" && name != "." && name != ".." && !strings.ContainsAny(name, "/\x00") && len(name) <= 255
+}
+
+// plantable: every component of p is a usable file name.
+func plantable(p string) bool {
+	if len(p) > 3000 || strings.ContainsRune(p, 0) {
+		return false
+	}
+	for _, c := range strings.Split(strings.Trim(p, "/"), "/") {
+		if len(c) > 255 {
+			return false
+		}
+	}
+	return true
+}
+
+// baseWorld: the root with one installed plugin "good", a victim area next to every
+// ancestor of the root, and sentinels where an unguarded join of `name` would land.
+func baseWorld(root, name string) *world {
+	w := newWorld()
+	rc := path.Clean(root)
+	// lexically skipped components of an unclean root must exist for the kernel (List uses the raw root)
+	acc := ""
+	for _, c := range strings.Split(strings.Trim(root, "/"), "/") {
+		if c == "" || c == "." {
+			continue
+		}
+		if c == ".." {
+			acc = path.Dir(acc)
+			continue
+		}
+		acc += "/" + c
+		w.dirAll(acc)
+	}
+	w.dirAll(rc)
+	for a := path.Dir(rc); ; a = path.Dir(a) {
+		w.put(path.Join(a, "victim", "notation-victim"), "exec", 7)
+		w.put(path.Join(a, "victim", "data"), "file", 1)
+		if a == "/" {
+			break
+		}
+	}
+	w.put(path.Join(rc, "good", "notation-good"), "exec", 2)
+	w.put(path.Join(rc, "good", "LICENSE"), "file", 1)
+	plant(w, rc, name)
+	return w
+}
+
+// plant puts a directory (with a file in it) at Join(root, name) and an executable at
+// Join(root, Join(name, "notation-"+name)) - the places the unguarded code would touch.
+func plant(w *world, rc, name string) {
+	if validName(name) {
+		return
+	}
+	tDir := filepath.Join(rc, name)
+	tExe := filepath.Join(rc, path.Join(name, "notation-"+name))
+	if plantable(tDir) && tDir != "/" {
+		if w.put(tDir, "dir", 0) || w.nodes[tDir].Kind == "dir" {
+			w.put(path.Join(tDir, "planted"), "file", 4)
+		}
+	}
+	if plantable(tExe) && tExe != "/" {
+		w.put(tExe, "exec", 9)
+	}
+}
+
+// validName is the harness' own reading of "acceptable to the manager" - used only to pick
+// what to generate, never to judge.
+func validName(n string) bool {
+	return n != "" && n != "." && n != ".." && !strings.ContainsAny(n, "/\\\x00")
+}
+
+// ---- concretisation ----------------------------------------------------------------------
+
+type job struct {
+	in     Input
+	tags   []string
+	before map[string]string
+	obs    Obs
+	err    error
+}
+
+type env struct {
+	c       *common.Ctx
+	jobs    []*job
+	work    string // absolute scratch directory
+	targets string // directory the symlinks of a world point into (outside every case directory)
+	chain   *common.Chain
+	other   *common.Chain // a chain whose root is not what the signatures are made with
+	policy  *trustpolicy.OCIDocument
+	desc    ocispec.Descriptor
+}
+
+type memStore struct{ certs []*x509.Certificate }
+
+func (m memStore) GetCertificates(ctx context.Context, t truststore.Type, named string) ([]*x509.Certificate, error) {
+	return m.certs, nil
+}
+
+func script(marker, metaName string, ver int) []byte {
+	meta, _ := json.Marshal(map[string]any{
+		"name": metaName, "description": "sentinel", "version": fmt.Sprintf("%d.0.0", ver), "url": "https://example.invalid/p",
+		"supportedContractVersions": []string{"1.0"},
+		"capabilities":              []string{"SIGNATURE_VERIFIER.TRUSTED_IDENTITY"},
+	})
+	return []byte("#!/bin/sh\nprintf '%s\\n' \"$0\" >> '" + marker + "'\ncase \"$1\" in\nget-plugin-metadata) cat <<'C16EOF'\n" + string(meta) +
+		"\nC16EOF\n;;\nverify-signature) cat <<'C16EOF'\n" +
+		`{"verificationResults":{"SIGNATURE_VERIFIER.TRUSTED_IDENTITY":{"success":true}},"processedAttributes":[]}` +
+		"\nC16EOF\n;;\nesac\n")
+}
+
+func (e *env) build(caseDir, marker string, in Input) error {
+	for _, n := range in.FS {
+		p := caseDir + n.Path
+		var err error
+		switch n.Kind {
+		case "dir":
+			err = os.Mkdir(p, 0o755)
+		case "exec":
+			err = os.WriteFile(p, script(marker, in.Name, n.Ver), 0o755)
+		case "file":
+			err = os.WriteFile(p, []byte(fmt.Sprintf("data-%d\n", n.Ver)), 0o644)
+		case "symdir":
+			err = os.Symlink(filepath.Join(e.targets, "dir"), p)
+		case "symfile":
+			err = os.Symlink(filepath.Join(e.targets, "data"), p)
+		default:
+			err = fmt.Errorf("unknown kind %q", n.Kind)
+		}
+		if err != nil {
+			return fmt.Errorf("building world: %w", err)
+		}
+	}
+	return nil
+}
+
+func snapshot(caseDir string) (map[string]string, error) {
+	m := map[string]string{}
+	err := filepath.WalkDir(caseDir, func(p string, d fs.DirEntry, err error) error {
+		if err != nil {
+			return err
+		}
+		rel := strings.TrimPrefix(p, caseDir)
+		if rel == "" {
+			rel = "/"
+		}
+		t := d.Type()
+		switch {
+		case t.IsDir():
+			m[rel] = "dir"
+		case t&fs.ModeSymlink != 0:
+			tgt, _ := os.Readlink(p)
+			m[rel] = "symlink:" + tgt
+		case t.IsRegular():
+			b, err := os.ReadFile(p)
+			if err != nil {
+				return err
+			}
+			m[rel] = fmt.Sprintf("file:%d:%x", len(b), sha256.Sum256(b))
+		default:
+			m[rel] = "other:" + t.String()
+		}
+		return nil
+	})
+	return m, err
+}
+
+// safe: whatever an unguarded join would produce stays strictly inside the case directory
+// (so that a mutant of the code under test can never reach outside the scratch area).
+func safe(caseDir, root, name string) bool {
+	realRoot := caseDir + root
+	in := func(p string) bool { return strings.HasPrefix(p, caseDir+"/") }
+	return in(filepath.Join(realRoot, name)) && in(filepath.Join(realRoot, path.Join(name, "notation-"+name))) &&
+		in(filepath.Clean(realRoot))
+}
+
+// runCase queues a case; tags are distribution counters of the generator.
+func (e *env) runCase(in Input, tags ...string) error {
+	if !utf8.ValidString(in.Name) || !utf8.ValidString(in.Root) {
+		return fmt.Errorf("generator produced invalid UTF-8")
+	}
+	if !safe("/CASE", in.Root, effectiveName(in)) {
+		e.c.Count("skipped=would-leave-case-directory")
+		return nil
+	}
+	// end-to-end cases alternate between a trusted and an untrusted signer: the name reaches the
+	// plugin manager before authenticity is evaluated
+	in.Trusted = in.Op != "verify" || len(e.jobs)%2 == 0
+	if in.Op == "verify" {
+		tags = append(tags, fmt.Sprintf("verify-signer-trusted=%v", in.Trusted))
+	}
+	e.jobs = append(e.jobs, &job{in: in, tags: tags})
+	return nil
+}
+
+func effectiveName(in Input) string {
+	if in.Op == "install" && in.Name == "" {
+		if b := path.Base(in.Src); strings.HasPrefix(b, "notation-") {
+			return strings.TrimPrefix(b, "notation-")
+		}
+	}
+	return in.Name
+}
+
+// execAll runs the queued cases on a pool of workers and emits them in generation order.
+// The work is done in batches of three phases with a barrier in between - build the worlds,
+// run the operations, clean up - because a script that is still open for writing in one
+// goroutine while another goroutine forks makes the later exec of that script fail with
+// ETXTBSY (the child inherits the descriptor until its own exec).
+func (e *env) execAll() error {
+	workers := runtime.NumCPU()
+	if workers > 8 {
+		workers = 8
+	}
+	if workers < 1 {
+		workers = 1
+	}
+	parallel := func(lo, hi int, f func(k int)) {
+		var wg sync.WaitGroup
+		next := int64(lo - 1)
+		for w := 0; w < workers; w++ {
+			wg.Add(1)
+			go func() {
+				defer wg.Done()
+				for {
+					k := int(atomic.AddInt64(&next, 1))
+					if k >= hi {
+						return
+					}
+					f(k)
+				}
+			}()
+		}
+		wg.Wait()
+	}
+	const batch = 512
+	for lo := 0; lo < len(e.jobs); lo += batch {
+		hi := lo + batch
+		if hi > len(e.jobs) {
+			hi = len(e.jobs)
+		}
+		parallel(lo, hi, func(k int) { e.jobs[k].err = e.prepare(k, e.jobs[k]) })
+		parallel(lo, hi, func(k int) {
+			if e.jobs[k].err == nil {
+				e.jobs[k].obs, e.jobs[k].err = e.execCase(k, e.jobs[k])
+			}
+		})
+		parallel(lo, hi, func(k int) {
+			os.RemoveAll(e.caseDir(k))
+			os.Remove(e.marker(k))
+			e.jobs[k].before = nil
+		})
+	}
+	for _, j := range e.jobs {
+		if j.err != nil {
+			return j.err
+		}
+		in, o := j.in, j.obs
+		e.c.Emit(in, o)
+		for _, t := range j.tags {
+			e.c.Count(t)
+		}
+		e.c.Count("op=" + in.Op)
+		if o.Err {
+			e.c.Count("op=" + in.Op + " error")
+		} else {
+			e.c.Count("op=" + in.Op + " ok")
+		}
+		if len(o.Executed) > 0 {
+			e.c.Count("ran-a-script")
+		}
+		if len(o.Changed) > 0 {
+			e.c.Count("changed-something")
+		}
+		if in.Op != "list" {
+			if validName(effectiveName(in)) {
+				e.c.Count("name=acceptable")
+			} else {
+				e.c.Count("name=hostile")
+			}
+		}
+	}
+	return nil
+}
+
+func (e *env) caseDir(k int) string { return filepath.Join(e.work, fmt.Sprintf("c%d", k)) }
+func (e *env) marker(k int) string  { return filepath.Join(e.work, fmt.Sprintf("m%d.log", k)) }
+
+// prepare builds the world of a case and snapshots it.
+func (e *env) prepare(k int, j *job) error {
+	caseDir := e.caseDir(k)
+	if !safe(caseDir, j.in.Root, effectiveName(j.in)) {
+		return fmt.Errorf("unsafe case reached execution: %q %q", j.in.Root, j.in.Name)
+	}
+	if err := os.Mkdir(caseDir, 0o755); err != nil {
+		return err
+	}
+	if err := e.build(caseDir, e.marker(k), j.in); err != nil {
+		return fmt.Errorf("%w (input %+v)", err, j.in)
+	}
+	var err error
+	j.before, err = snapshot(caseDir)
+	return err
+}
+
+// execCase runs the operation on the real code and returns the observation.
+func (e *env) execCase(k int, j *job) (Obs, error) {
+	in, before := j.in, j.before
+	o := Obs{Executed: []string{}, Changed: []string{}, Listed: []string{}}
+	caseDir, marker := e.caseDir(k), e.marker(k)
+	ctx, cancel := context.WithTimeout(context.Background(), 30*time.Second)
+	defer cancel()
+	mgr := plugin.NewCLIManager(dir.NewSysFS(caseDir + in.Root))
+	switch in.Op {
+	case "get":
+		p, err := mgr.Get(ctx, in.Name)
+		o.Err = err != nil
+		if err == nil {
+			if p == nil {
+				return o, errors.New("Get returned neither plugin nor error")
+			}
+			p.GetMetadata(ctx, &pluginframework.GetMetadataRequest{})
+		}
+	case "uninstall":
+		o.Err = mgr.Uninstall(ctx, in.Name) != nil
+	case "install":
+		src := in.Src
+		if src != "" {
+			src = caseDir + src
+		}
+		_, _, err := mgr.Install(ctx, plugin.CLIInstallOptions{PluginPath: src, Overwrite: in.Overwrite})
+		o.Err = err != nil
+	case "list":
+		names, err := mgr.List(ctx)
+		o.Err = err != nil
+		o.Listed = append(o.Listed, names...)
+		sort.Strings(o.Listed)
+	case "verify":
+		sig, err := common.SignEnvelope(common.EnvOpts{Chain: e.chain, Target: &e.desc,
+			ExtAttrs: []signature.Attribute{{Key: "io.cncf.notary.verificationPlugin", Critical: true, Value: in.Name}}})
+		if err != nil {
+			return o, fmt.Errorf("signing: %w", err)
+		}
+		trustRoot := e.chain.Root().Cert
+		if !in.Trusted {
+			trustRoot = e.other.Root().Cert
+		}
+		v, err := verifier.NewVerifierWithOptions(memStore{[]*x509.Certificate{trustRoot}},
+			verifier.VerifierOptions{OCITrustPolicy: e.policy, PluginManager: mgr})
+		if err != nil {
+			return o, err
+		}
+		_, err = v.Verify(ctx, e.desc, sig, notation.VerifierVerifyOptions{
+			ArtifactReference: "reg.example/repo@" + e.desc.Digest.String(), SignatureMediaType: common.MediaJWS})
+		o.Err = err != nil
+	default:
+		return o, fmt.Errorf("unknown op %q", in.Op)
+	}
+	after, err := snapshot(caseDir)
+	if err != nil {
+		return o, err
+	}
+	for p, s := range before {
+		if after[p] != s {
+			o.Changed = append(o.Changed, p)
+		}
+	}
+	for p := range after {
+		if _, ok := before[p]; !ok {
+			o.Changed = append(o.Changed, p)
+		}
+	}
+	sort.Strings(o.Changed)
+	if b, err := os.ReadFile(marker); err == nil {
+		seen := map[string]bool{}
+		for _, l := range strings.Split(strings.TrimSuffix(string(b), "\n"), "\n") {
+			a := "outside-case-directory:" + l
+			if strings.HasPrefix(l, caseDir+"/") {
+				a = strings.TrimPrefix(l, caseDir)
+			}
+			if !seen[a] {
+				seen[a] = true
+				o.Executed = append(o.Executed, a)
+			}
+		}
+		sort.Strings(o.Executed)
+	}
+	return o, nil
+}
+
+// ---- generators --------------------------------------------------------------------------
+
+func hostileNames() []string {
+	var out []string
+	tails := []string{"", "victim", "victim/notation-victim", "victim/", "./victim", "good", "victim/..", "victim/data", "p/good"}
+	for k := 1; k <= 4; k++ {
+		ups := strings.Repeat("../", k)
+		for _, t := range tails {
+			n := ups + t
+			if t == "" {
+				n = strings.TrimSuffix(ups, "/")
+				out = append(out, n+"/")
+			}
+			out = append(out, n, "./"+n, "good/../"+n, "good/"+n, "nonexistent/../"+n, "/"+n)
+		}
+		out = append(out, strings.Repeat("..\\", k)+"victim", strings.Repeat("..\\", k))
+	}
+	out = append(out,
+		"", ".", "..", "/", "//", "/.", "/..", "./", "../", "./.", "./good", "good/.", "good/", "good/..", "good/../good",
+		"/tmp/x", "/etc/passwd", "/victim", "/../victim", "/good", "//good", "/tmp/../../victim",
+		"a/b", "good/notation-good", "good/sub", "a//b", "a/./b", "/a", "a/",
+		"a\\b", "\\", "good\\", "\\good", "good\\..\\..\\victim", "..\\", "C:\\victim", "a\\/b",
+		"\x00", "good\x00", "\x00good", "go\x00od", "../victim\x00", "good\x00/../../victim", "..\x00", "victim\x00/x",
+		"..../", "..././victim", "....//victim", ".../...//", "good/...", ".../good",
+		strings.Repeat("a", 300)+"/x", "x/"+strings.Repeat("a", 300), "../"+strings.Repeat("a", 5000), strings.Repeat("a/", 2100)+"b",
+		"../"+strings.Repeat("v", 255), "../victim/"+strings.Repeat("a", 250),
+	)
+	return out
+}
+
+func acceptableNames() []string {
+	return []string{"good", "my.plugin", "com.example.plugin", "a", "-", "...", "..a", "a..", ".hidden", ".a.", " ", "a b", " good", "good ",
+		"pl\u00fcgin", "\u65e5\u672c", "notation-good", "good.exe", "~", "$HOME", "*", "a:b", "%2e%2e", "%2e%2e%2fvictim", "..%2fvictim",
+		"\uff0e\uff0e", "\u2215victim", "..;", "-rf", "a'b", "a\"b", "`id`", "$(id)", "a;b", "a|b", "a&b", "victim", "\t", "x\ty",
+		strings.Repeat("a", 200), strings.Repeat("a", 246), strings.Repeat("a", 247), strings.Repeat("a", 255), strings.Repeat("a", 256),
+		strings.Repeat("a", 300), strings.Repeat("a", 5000), strings.Repeat("\u00e9", 120)}
+}
+
+var roots = []string{"/p", "/a/p", "/a/b/p", "/a/b/c/d/p", "/a/b/p/", "/a//b/./p", "/a/x/../b/p", "/a/b/p/."}
+
+// presence variants of <root>/<name> for an acceptable, creatable name
+var variants = []string{"absent", "plugin", "dirOnly", "exeIsDir", "exeIsData", "nameIsFile", "nameIsSymdir", "exeIsSymfile", "nested"}
+
+func applyVariant(w *world, rc, name, variant string, ver int) {
+	d := path.Join(rc, name)
+	x := path.Join(d, "notation-"+name)
+	switch variant {
+	case "plugin":
+		w.put(x, "exec", ver)
+		w.put(path.Join(d, "LICENSE"), "file", 2)
+	case "dirOnly":
+		w.put(path.Join(d, "old.txt"), "file", 3)
+	case "exeIsDir":
+		w.put(path.Join(x, "inner"), "file", 3)
+	case "exeIsData":
+		w.put(x, "file", 5)
+	case "nameIsFile":
+		w.put(d, "file", 6)
+	case "nameIsSymdir":
+		w.put(d, "symdir", 0)
+	case "exeIsSymfile":
+		w.put(x, "symfile", 0)
+	case "nested":
+		w.put(x, "exec", ver)
+		w.put(path.Join(d, "lib", "deep", "x.so"), "file", 2)
+		w.put(path.Join(d, "lib", "notation-"+name), "exec", 8)
+	}
+}
+
+func (e *env) lookupCases(names []string, rootSet []string, ops []string) error {
+	for _, name := range names {
+		for _, root := range rootSet {
+			for _, op := range ops {
+				w := baseWorld(root, name)
+				if err := e.runCase(Input{Op: op, Root: root, Name: name, FS: w.list()}); err != nil {
+					return err
+				}
+			}
+		}
+	}
+	return nil
+}
+
+func (e *env) variantCases(names []string, rootSet []string) error {
+	for _, name := range names {
+		if !fsLegal("notation-"+name) || name == "good" {
+			continue
+		}
+		for _, root := range rootSet {
+			for _, v := range variants {
+				for _, op := range []string{"get", "uninstall", "verify"} {
+					w := baseWorld(root, name)
+					applyVariant(w, path.Clean(root), name, v, 3)
+					if err := e.runCase(Input{Op: op, Root: root, Name: name, FS: w.list()}, "variant="+v); err != nil {
+						return err
+					}
+				}
+			}
+		}
+	}
+	return nil
+}
+
+// installCases: install from a file called notation-<name> and from a directory holding it.
+func (e *env) installCases(names []string, rootSet []string, full bool) error {
+	existing := []struct {
+		variant string
+		ver     int
+	}{{"absent", 0}, {"plugin", 1}, {"plugin", 2}, {"plugin", 3}, {"dirOnly", 0}, {"exeIsDir", 0}, {"exeIsData", 0}, {"nested", 1}, {"nameIsFile", 0}}
+	for _, name := range names {
+		if !fsLegal("notation-"+name) || strings.ContainsAny(name, "/\x00") || name == "" {
+			continue
+		}
+		for _, root := range rootSet {
+			rc := path.Clean(root)
+			for xi, ex := range existing {
+				if !full && xi > 3 && name != "my.plugin" {
+					continue
+				}
+				if ex.variant == "nameIsFile" {
+					continue // ENOTDIR vs ENOENT is not modelled (see README)
+				}
+				for _, overwrite := range []bool{false, true} {
+					for _, route := range []string{"file", "dir", "dir-extra"} {
+						w := baseWorld(root, name)
+						if validName(name) && name != "good" {
+							applyVariant(w, rc, name, ex.variant, ex.ver)
+						}
+						var src string
+						switch route {
+						case "file":
+							src = "/src/notation-" + name
+							w.put(src, "exec", 2)
+							w.put("/src/README", "file", 1)
+						case "dir":
+							src = "/srcdir"
+							w.put("/srcdir/notation-"+name, "exec", 2)
+						case "dir-extra":
+							src = "/a/srcdir"
+							w.put(src+"/notation-"+name, "exec", 2)
+							w.put(src+"/LICENSE", "file", 2)
+							w.put(src+"/libfoo.so", "file", 7)
+							w.put(src+"/sub/notation-zzz", "exec", 5)
+							w.put(src+"/lnk", "symfile", 0)
+							w.put(src+"/notation-nonexec", "file", 1)
+						}
+						if err := e.runCase(Input{Op: "install", Root: root, Name: name, Src: src, Overwrite: overwrite, FS: w.list()},
+							"install-route="+route, fmt.Sprintf("install-existing=%s/%d", ex.variant, ex.ver)); err != nil {
+							return err
+						}
+					}
+				}
+			}
+		}
+	}
+	return nil
+}
+
+// installOddSources: sources that carry no (single) plugin name, or one that cannot run.
+func (e *env) installOddSources(root string) error {
+	type srcCase struct {
+		src   string
+		name  string
+		nodes []Node
+	}
+	cases := []srcCase{
+		{"", "", nil},
+		{"/src/missing", "", []Node{{"/src/other", "file", 1}}},
+		{"/src/plugin", "", []Node{{"/src/plugin", "exec", 2}}},
+		{"/src/notation-", "", []Node{{"/src/notation-", "exec", 2}}},
+		{"/src/notation-x", "x", []Node{{"/src/notation-x", "file", 2}}},
+		{"/src/notation-..", "..", []Node{{"/src/notation-..", "file", 2}}},
+		{"/src/notation-x", "x", []Node{{"/src/notation-x", "symfile", 0}}},
+		{"/srcdir", "", []Node{{"/srcdir/README", "file", 1}}},
+		{"/srcdir", "", []Node{{"/srcdir/sub/notation-x", "exec", 2}}},
+		{"/srcdir", "", []Node{{"/srcdir/notation-x", "exec", 2}, {"/srcdir/notation-y", "exec", 2}}},
+		{"/srcdir", "", []Node{{"/srcdir/notation-..", "exec", 2}, {"/srcdir/notation-.", "exec", 2}}},
+		{"/srcdir", "", []Node{{"/srcdir/notation-x", "file", 2}, {"/srcdir/notation-y", "file", 2}}},
+		{"/srcdir", "x", []Node{{"/srcdir/notation-x", "file", 2}}},
+		{"/srcdir", "..", []Node{{"/srcdir/notation-..", "file", 2}}},
+		{"/srcdir", ".", []Node{{"/srcdir/notation-.", "file", 2}, {"/srcdir/zzz", "file", 1}}},
+		{"/srcdir", "y", []Node{{"/srcdir/notation-x", "file", 2}, {"/srcdir/notation-y", "exec", 3}}},
+		{"/srcdir", "..", []Node{{"/srcdir/notation-x", "file", 2}, {"/srcdir/notation-..", "exec", 3}}},
+		{"/srcdir", "x", []Node{{"/srcdir/notation-x", "exec", 2}, {"/srcdir/lnk", "symfile", 0}, {"/srcdir/dlnk", "symdir", 0}}},
+	}
+	for _, sc := range cases {
+		for _, overwrite := range []bool{false, true} {
+			w := baseWorld(root, sc.name)
+			for _, n := range sc.nodes {
+				w.put(n.Path, n.Kind, n.Ver)
+			}
+			if sc.src != "" {
+				w.dirAll(path.Dir(sc.src))
+			}
+			if err := e.runCase(Input{Op: "install", Root: root, Name: sc.name, Src: sc.src, Overwrite: overwrite, FS: w.list()}, "install-route=odd-source"); err != nil {
+				return err
+			}
+		}
+	}
+	return nil
+}
+
+func (e *env) listCases() error {
+	entries := [][]Node{
+		{},
+		{{"one/notation-one", "exec", 1}},
+		{{"one/notation-one", "exec", 1}, {"two", "dir", 0}, {"a.file", "file", 1}, {"notation-loose", "exec", 1}},
+		{{"real", "dir", 0}, {"linkdir", "symdir", 0}, {"linkfile", "symfile", 0}, {"zfile", "file", 1}},
+		{{"deep/inner/notation-inner", "exec", 1}, {"deep/notation-deep", "exec", 1}, {"linkdir", "symdir", 0}},
+		{{"..a", "dir", 0}, {"...", "dir", 0}, {"a b", "dir", 0}, {"a\\b", "dir", 0}, {"\u65e5\u672c", "dir", 0}, {"-", "dir", 0}, {" ", "dir", 0}},
+		{{"B", "dir", 0}, {"a", "dir", 0}, {"C/x/y", "dir", 0}, {"b", "symdir", 0}, {"A", "file", 1}},
+	}
+	for _, root := range roots {
+		for _, es := range entries {
+			w := baseWorld(root, "good")
+			rc := path.Clean(root)
+			for _, n := range es {
+				w.put(path.Join(rc, n.Path), n.Kind, n.Ver)
+			}
+			if err := e.runCase(Input{Op: "list", Root: root, FS: w.list()}); err != nil {
+				return err
+			}
+		}
+	}
+	// a root that does not exist, and an empty one
+	for _, root := range []string{"/nowhere/p", "/empty"} {
+		w := newWorld()
+		w.dirAll("/victim")
+		if root == "/empty" {
+			w.dirAll(root)
+		}
+		if err := e.runCase(Input{Op: "list", Root: root, FS: w.list()}); err != nil {
+			return err
+		}
+	}
+	return nil
+}
+
+// randomName draws from the traversal grammar.
+func (e *env) randomName() string {
+	pieces := []string{"..", "..", "..", ".", "", "victim", "good", "notation-victim", "notation-good", "a", "...", " ", "x.y", "p", "data",
+		"a\\b", "..\\", "\x00", "good\x00", "notation-..", "notation-"}
+	n := 1 + e.c.Rand.Intn(5)
+	var parts []string
+	for i := 0; i < n; i++ {
+		parts = append(parts, pieces[e.c.Rand.Intn(len(pieces))])
+	}
+	s := strings.Join(parts, "/")
+	if e.c.Rand.Intn(6) == 0 {
+		s = "/" + s
+	}
+	if e.c.Rand.Intn(8) == 0 {
+		s += "/"
+	}
+	return s
+}
+
 // Run generates the cases of C16.
-func Run(c *common.Ctx) error { return errors.New("C16: harness not built yet") }
+func Run(c *common.Ctx) error {
+	e := &env{c: c}
+	var err error
+	if e.work, err = filepath.Abs(c.WorkDir); err != nil {
+		return err
+	}
+	e.targets = filepath.Join(e.work, "targets")
+	if err := os.MkdirAll(filepath.Join(e.targets, "dir"), 0o755); err != nil {
+		return err
+	}
+	if err := os.WriteFile(filepath.Join(e.targets, "dir", "inside"), []byte("x"), 0o644); err != nil {
+		return err
+	}
+	if err := os.WriteFile(filepath.Join(e.targets, "data"), []byte("target data\n"), 0o644); err != nil {
+		return err
+	}
+	e.chain = common.MakeChain(common.ChainOpts{Tag: "c16"})
+	e.other = common.MakeChain(common.ChainOpts{Tag: "c16 other"})
+	e.desc = ocispec.Descriptor{MediaType: ocispec.MediaTypeImageManifest, Digest: digest.FromString("c16 artifact"), Size: 12}
+	e.policy = &trustpolicy.OCIDocument{Version: "1.0", TrustPolicies: []trustpolicy.OCITrustPolicy{{
+		Name: "c16", RegistryScopes: []string{"*"}, TrustStores: []string{"ca:c16"}, TrustedIdentities: []string{"*"},
+		SignatureVerification: trustpolicy.SignatureVerification{VerificationLevel: "strict"}}}}
+
+	hostile, acceptable := hostileNames(), acceptableNames()
+	lookupOps := []string{"get", "uninstall", "verify"}
+	// 1. every hostile name against every root through lookup, uninstall and end-to-end verification
+	if err := e.lookupCases(hostile, roots, lookupOps); err != nil {
+		return err
+	}
+	// 2. acceptable names: absent, and in every presence variant
+	if err := e.lookupCases(acceptable, []string{"/p", "/a/b/p", "/a//b/./p"}, lookupOps); err != nil {
+		return err
+	}
+	if err := e.variantCases(acceptable, []string{"/a/p", "/a/b/p/"}); err != nil {
+		return err
+	}
+	// 3. install: names a file system can carry after "notation-" (this is how ".", ".." and "a\b" arrive)
+	installNames := []string{".", "..", "...", "a\\b", "..\\victim", "..\\..", "my.plugin", "good", "a", " ", "a b", "pl\u00fcgin", "-", "..a", "victim",
+		strings.Repeat("a", 200), strings.Repeat("a", 246), "%2e%2e", "\uff0e\uff0e", "$(id)", "x\ty"}
+	if err := e.installCases(installNames, []string{"/p", "/a/b/p", "/a/b/c/d/p", "/a/x/../b/p"}, c.Thorough()); err != nil {
+		return err
+	}
+	for _, root := range []string{"/a/p", "/a/b/p/"} {
+		if err := e.installOddSources(root); err != nil {
+			return err
+		}
+	}
+	// 4. listing
+	if err := e.listCases(); err != nil {
+		return err
+	}
+	// 5. random names from the grammar
+	nRandom := 1500
+	if c.Thorough() {
+		nRandom = 25000
+	}
+	ops := []string{"get", "uninstall", "verify", "get", "uninstall"}
+	for k := 0; k < nRandom; k++ {
+		name := e.randomName()
+		root := roots[c.Rand.Intn(len(roots))]
+		op := ops[c.Rand.Intn(len(ops))]
+		w := baseWorld(root, name)
+		if validName(name) && fsLegal("notation-"+name) && name != "good" {
+			applyVariant(w, path.Clean(root), name, variants[c.Rand.Intn(len(variants))], 1+c.Rand.Intn(3))
+		}
+		if err := e.runCase(Input{Op: op, Root: root, Name: name, FS: w.list()}, "generator=random"); err != nil {
+			return err
+		}
+	}
+	if err := e.execAll(); err != nil {
+		return err
+	}
+	c.Note("names: %d hostile shapes (../ runs of depth 1..4 x tails x prefixes, absolute-looking, dot/empty, separators, backslash, NUL, very long) and %d acceptable ones, against %d roots (depth 1..5, clean and unclean), through Get(+GetMetadata), Uninstall, verifier.Verify (real CLIManager, signature carrying the name), Install from file and from directory, List; %d random names from the grammar. Sentinel executables and directories are planted where an unguarded join would land; the whole case directory is snapshotted before and after.",
+		len(hostile), len(acceptable), len(roots), nRandom)
+	return nil
+}
